@@ -13,6 +13,9 @@ CLAIMED = {
  "C07": dict(level="proof", design="3/C07", tech=AI + " (interval, monotonicity, affine form with product symbol, constant propagation)",
    text="Abstract interpretation of the inlined IR of channel_multiply/channel_invert for every provided channel model: no wrap or lossy narrowing, result in range, invert == max-x+min exactly and involutive, multiply within one unit of a*b/max, a function of the symmetric product (commutative), monotone in each argument, min annihilates, documented corners.",
    note="Trusted as for C06. Not decided: exactness of max as identity for interior values (div255 error bound is 0.502)."),
+ "C02": dict(level="proof", design="3/C02", tech="global value numbering with polynomial normal form over inlined LLVM IR (address identities)",
+   text="For every provided view kind (interleaved, planar, x/xy-step, transposed, packed, bit-aligned, channel views, dereference-adapted, virtual) and every factory, the memory cell denoted by F(v)(x,y) and by v(phi_F(x,y)) are normalised to polynomials over the view's fields and (x,y) and must be identical; likewise all ordered compositions of two factories, dimension formulas, nth/kth channel views and the stated identities. Equality of normal forms holds for all shapes, strides and coordinates at once.",
+   note="Trusted: clang front end, LLVM inliner/SROA/mem2reg, the normaliser harness/ir/poly.py, the documented formulas in spec/c02_factories.json. Assumes bit offsets narrowed to int do not overflow. color_converted_view values are C09's clause; shallow-ness (no allocation/copy reachable) is checked by the AST who-may-call rule when present."),
 }
 NA_REASON = {
  "C19": "sums over hash-map contents filled in data-dependent loops; no static domain in reach relates container contents to pixel counts (DESIGN 3/C19)",
